@@ -505,6 +505,40 @@ pub fn split_variant(debug: &str) -> Option<(&str, &str)> {
     Some((v, inner))
 }
 
+/// Leading type name of a derive-style `Debug` rendering (`Type { .. }`, `Type(..)`, `Type`).
+fn type_name(debug: &str) -> &str {
+    debug.split(|c: char| c == ' ' || c == '{' || c == '(').next().unwrap_or("")
+}
+
+/// The property's comparator for one yielded item: `item` is the `Debug` of what the reply parser
+/// returned for `frame`. Verdict: Some(true) = it carries exactly what a shipped packet type of
+/// that control field decodes from the frame on its own; Some(false) = it names such a type but
+/// with other content; None = it cannot be compared (the item is not rendered in derive style, or
+/// names a packet type this harness does not know - a hand-written `Debug`, a new packet type).
+pub fn item_matches_own_decode(item: &str, frame: &[u8]) -> Option<bool> {
+    let own = own_decodes(frame);
+    let (_, inner) = split_variant(item)?;
+    if own.iter().any(|o| o == inner) {
+        return Some(true);
+    }
+    let name = type_name(inner);
+    if !name.is_empty() && own.iter().any(|o| type_name(o) == name) {
+        return Some(false);
+    }
+    None
+}
+
+/// Does the library's own reply parser of `id` accept `frame` as a packet of a type this harness
+/// knows for that control field, with exactly that type's own decode? Then the library's reply set
+/// is larger than the table of DESIGN 5.2 (a variant the specification allows was added): such an
+/// exchange is not judged, because the table cannot say whether the packet ends it.
+pub fn library_extends_reply_set(id: SeqId, frame: &[u8]) -> bool {
+    match library_parse_debug(id, frame) {
+        Ok(Some(dbg)) => item_matches_own_decode(&dbg, frame) == Some(true),
+        _ => false,
+    }
+}
+
 // ---------------------------------------------------------------- drivers
 
 /// What the harness sees of the stream, with the connection state at the
